@@ -240,6 +240,12 @@ func (m *JSONMarshaler) marshalMap(opts *protojson.MarshalOptions, protomap prot
 }
 
 func (m *JSONMarshaler) marshalJSON(value any, opts *protojson.MarshalOptions) ([]byte, error) {
+	// MarshalIndent outputs newlines even with an empty indent, which isn't what protojson does when Multiline isn't set,
+	// and breaks any newline-delimited and SSE streams which expect each message to take up a single line.
+	if !opts.Multiline && opts.Indent == "" {
+		return json.Marshal(value)
+	}
+
 	return json.MarshalIndent(value, "", opts.Indent)
 }
 
